@@ -245,9 +245,10 @@ MUTANTS += [
     dict(name='c14_mkdir_errors_swallowed', props=['C14'], file=FB,
          old="                try:\n                    os.mkdir(parent)\n                except FileExistsError:\n                    continue\n                made_dirs.append(parent)",
          new="                try:\n                    os.mkdir(parent)\n                except OSError:\n                    continue\n                made_dirs.append(parent)"),
-    dict(name='c14_apply_cached_no_error_cleanup', props=['C14'], file=FB,
-         old="                try:\n                    self._ensure_dirs_case(locked_created_dirs)\n                    self._apply_cached_suboperations(suboperation)\n                except Exception:\n                    self._build_dirs.error_building_file(filename)\n                    raise",
-         new="                self._ensure_dirs_case(locked_created_dirs)\n                self._apply_cached_suboperations(suboperation)"),
+
+    dict(name='c14_apply_cached_no_undo_on_failure', props=['C14'], file=FB,
+         old="        except Exception:\n            for filename in reversed(started_filenames):\n                self._build_dirs.error_building_file(filename)\n            raise",
+         new="        except Exception:\n            raise"),
     dict(name='c14_backup_rename_error_swallowed', props=['C14'], file=BK,
          old="        try:\n            os.rename(filename, backup_filename)\n        except FileNotFoundError:\n            return False",
          new="        try:\n            os.rename(filename, backup_filename)\n        except OSError:\n            return False"),
